@@ -91,7 +91,7 @@ pub fn registry() -> Vec<TypeEntry> {
     add!(v, "Quaternion", Quaternion<f32>, Quaternion<f64>, Quaternion<i32>);
     add!(v, "Rad", Rad<f32>, Rad<f64>);
     add!(v, "Deg", Deg<f32>, Deg<f64>);
-    add!(v, "Euler", Euler<Rad<f32>>, Euler<Rad<f64>>, Euler<Deg<f32>>, Euler<Deg<f64>>, Euler<f64>);
+    add!(v, "Euler", Euler<Rad<f32>>, Euler<Rad<f64>>, Euler<Deg<f32>>, Euler<Deg<f64>>);
     add!(v, "Basis2", Basis2<f32>, Basis2<f64>);
     add!(v, "Basis3", Basis3<f32>, Basis3<f64>);
     add!(v, "PerspectiveFov", PerspectiveFov<f32>, PerspectiveFov<f64>);
@@ -113,6 +113,12 @@ pub fn registry() -> Vec<TypeEntry> {
         Decomposed<Vector3<i32>, Quaternion<i32>>,
         Decomposed<Vector3<f64>, Matrix3<f64>>,
         Decomposed<Vector3<f32>, Euler<Rad<f32>>>,
+        Decomposed<Vector3<i64>, Quaternion<i64>>,
+        Decomposed<Vector3<u64>, Vector3<u64>>,
+        Decomposed<Vector2<u8>, Vector2<u8>>,
+        Decomposed<Vector3<i16>, Point3<i16>>,
+        Decomposed<Vector3<f64>, Quaternion<f32>>,
+        Decomposed<Vector4<f32>, Matrix3<f64>>,
     );
 
     // fault-free probes: how many steps each direction takes, and where the records are
